@@ -511,7 +511,10 @@ row('CODE.CDR', ['C08'], touches=['code'], clauses=[
     ('fired.code', '(S0.code.len() >= 1 && top(S0.code, 0) is List) ==> S1.code.len() == S0.code.len() && drop_n(S1.code, 1) =~= drop_n(S0.code, 1) '
      '&& top(S1.code, 0) is List && top(S1.code, 0)->items@ =~= (if top(S0.code, 0)->items@.len() >= 1 { top(S0.code, 0)->items@.drop_last() } else { top(S0.code, 0)->items@ })'),
     ('{C08,C10}unfired.code', 'S0.code.len() == 0 ==> S1.code == S0.code')])
-row('CODE.CONS', ['C08'], takes=[('code', 2)], pushes=[('code', None)])
+# CONS: the second item becomes the first element of the first item (coerced to a list); no atom of either operand is lost
+row('CODE.CONS', ['C08'], takes=[('code', 2)], pushes=[('code', None)], clauses=[
+    ('fired.value.code.0', 'S0.code.len() >= 2 ==> top(S1.code, 0) is List && top(S1.code, 0)->items@ =~= '
+     '(if top(S0.code, 0) is List { top(S0.code, 0)->items@ } else { seq![top(S0.code, 0)] }).push(top(S0.code, 1))')])
 for nm in ['CODE.CONTAINER']:
     row(nm, ['C08'], fired='(S0.code.len() >= 2)', pushes=[('code', None)])
 for nm in ['CODE.CONTAINS', 'CODE.MEMBER']:
@@ -636,3 +639,12 @@ for _p in ['list::list_bval', 'list::list_ival', 'list::list_fval', 'list::list_
     FN_OVERLAYS.setdefault(_p, {}).setdefault('proofs', {})['body_start'] = _code_bound
 for _p in ['list::list_neighbor_bvals', 'list::list_neighbor_ivals', 'list::list_neighbor_fvals']:
     FN_OVERLAYS[_p]['attrs'] = '#[verifier::loop_isolation(false)]\n'
+
+FN_OVERLAYS['graph::graph_node_state_switch']['attrs'] = '#[verifier::loop_isolation(false)]\n'
+FN_OVERLAYS['code::code_nth'] = dict(proofs={'body_start': '''        proof {
+            if push_state.code_stack@.len() >= 1 {
+                crate::push::item::lemma_points_gt_len(top(push_state.code_stack@, 0));
+                assert(crate::push::item::points(push_state.code_stack@[push_state.code_stack@.len() - 1]) < 0x7fff_ffff);
+            }
+        }
+'''})
